@@ -193,8 +193,12 @@ def check_c11_files(case, files, ctx):
     return None, info
 
 
-def run_one(chk, inp, pvspec, ctx, validate_only=False, extra=None):
-    case = ["cli", pv.jsonable(pvspec), pv.jsonable(inp)]
+def run_one(chk, inp, pvspec, ctx, validate_only=False, extra=None, restaged=False):
+    """
+    restaged: the FASTA path held an earlier version of the assembly (other lengths and gap layout) which a first
+    invocation indexed; the file is then rewritten within the same clock tick as its cache files (equal mtimes).
+    """
+    case = ["cli", pv.jsonable(pvspec), pv.jsonable(inp)] + (["restaged"] if restaged else [])
     ctx.cur = case
     ctx.evaluations += 1
     ctx.nontrivial += 1
@@ -203,8 +207,27 @@ def run_one(chk, inp, pvspec, ctx, validate_only=False, extra=None):
     try:
         (d / "in").mkdir()
         (d / "out").mkdir()
-        seqs = cli.write_fasta(d / "in" / "asm.fa", inp, width=7)
+        fa = d / "in" / "asm.fa"
         cli.write_pretext(d / "in" / "map.agp", pvspec)
+        if restaged:
+            import os
+
+            old = cli.sequences_for(inp)
+            with open(fa, "wb") as fh:
+                for name, seq in old.items():
+                    fh.write(b">" + name.encode() + b"\n" + b"ACGTNN" + seq + b"\n")
+            (d / "out0").mkdir()
+            cli.invoke_p2a(["-a", fa, "-p", d / "in" / "map.agp", "-o", d / "out0" / "x.fa"])
+            if not (d / "in" / "asm.fa.fai").exists() or not (d / "in" / "asm.fa.agp").exists():
+                ctx.count("restaged_without_cache_files")
+            seqs = cli.write_fasta(fa, inp, width=7)
+            mt = os.stat(fa).st_mtime_ns
+            for p in (fa, d / "in" / "asm.fa.fai", d / "in" / "asm.fa.agp"):
+                if p.exists():
+                    os.utime(p, ns=(mt, mt))
+            ctx.count("cli_runs_restaged")
+        else:
+            seqs = cli.write_fasta(fa, inp, width=7)
         rc, _o, err, exc = cli.invoke_p2a(["-a", d / "in" / "asm.fa", "-p", d / "in" / "map.agp", "-o", d / "out" / "x.fa"])
         if rc != 0:
             ctx.count("cli_exit_nonzero")
@@ -226,6 +249,8 @@ def run_shard(chk, shard, ctx, validate_only=False, extra=None):
     for i, (inp, pvspec) in enumerate(cs):
         if i % chunks == chunk:
             run_one(chk, inp, pvspec, ctx, validate_only=validate_only, extra=extra)
+            if (i // chunks) % 6 == 0:
+                run_one(chk, inp, pvspec, ctx, validate_only=validate_only, extra=extra, restaged=True)
     ctx.count("cli_runs", sum(1 for i in range(len(cs)) if i % chunks == chunk))
     if chunk == 0 and cs:
         ctx.sample({"cli": "pretext-to-asm -a asm.fa -p map.agp -o x.fa", "pretext": pv.jsonable(cs[0][1]), "input": pv.jsonable(cs[0][0])})
@@ -234,4 +259,4 @@ def run_shard(chk, shard, ctx, validate_only=False, extra=None):
 def replay(chk, case, ctx, validate_only=False, extra=None):
     _, pvspec = case[:2]
     inp = pv.tuplify(case[2]) if len(case) > 2 else INP
-    run_one(chk, inp, (pvspec[0], pv.tuplify(pvspec[1])), ctx, validate_only=validate_only, extra=extra)
+    run_one(chk, inp, (pvspec[0], pv.tuplify(pvspec[1])), ctx, validate_only=validate_only, extra=extra, restaged=len(case) > 3 and case[3] == "restaged")
